@@ -82,7 +82,8 @@ class ScriptSocket:
         return len(data)
 
     def recvfrom(self, n):
-        return self.e.on_recv()
+        data, addr = self.e.on_recv()
+        return data[:n], addr      # a datagram socket silently truncates to the buffer size it is given
 
     def close(self):
         self.closed = True
